@@ -122,3 +122,29 @@ func GoodRunning(n int, pred func(i, j int) bool) *DenseGraph {
 	}
 	return NewDense(n, edges)
 }
+
+// ROWS
+func (g *SparseGraph) GoodCopyRows() *SparseGraph {
+	rows := make([][]int, len(g.Neighbourhoods))
+	for i := range g.Neighbourhoods {
+		rows[i] = make([]int, len(g.Neighbourhoods[i]))
+		copy(rows[i], g.Neighbourhoods[i])
+	}
+	return &SparseGraph{NumberOfVertices: g.NumberOfVertices, NumberOfEdges: g.NumberOfEdges, Neighbourhoods: rows, DegreeSequence: append([]int(nil), g.DegreeSequence...)}
+}
+
+func (g *SparseGraph) BadCopyRowsPooled() *SparseGraph {
+	size := 0
+	for i := range g.Neighbourhoods {
+		size += len(g.Neighbourhoods[i])
+	}
+	pool := make([]int, size)
+	rows := make([][]int, len(g.Neighbourhoods))
+	off := 0
+	for i := range g.Neighbourhoods {
+		end := off + copy(pool[off:], g.Neighbourhoods[i])
+		rows[i] = pool[off:end]
+		off = end
+	}
+	return &SparseGraph{NumberOfVertices: g.NumberOfVertices, NumberOfEdges: g.NumberOfEdges, Neighbourhoods: rows, DegreeSequence: append([]int(nil), g.DegreeSequence...)}
+}
